@@ -18,9 +18,10 @@ EXPLANATION = ("Gallina model of the metadata derived from `structure` (column_n
                "term_slices, variable_indices); theorems: per-term ranges concatenate to 0..ncols-1 (contiguous, disjoint, ordered, covering); a term "
                "looked up by object or by its printed form in ANY factor order gets the range of its own row; a column name selects a position "
                "carrying that name; the labels of the built matrix are the structure's column entries. The model's answers equal the implementation's "
-               "on every accessor; subsets regenerate the parent's columns (direct oracle).")
+               "on every accessor; `subset`/`get_term_indices`/`variable_indices` are modelled and proved (subset = parent's names at the parent's positions in the order chosen; "
+               "replaying any selection of structure rows gives each term the parent's columns); subsets in shuffled order, with unknown terms and on new data are also checked directly.")
 TRUSTED = ["Python dict lookup of a str key in a Term-keyed mapping is modelled as equality of sorted factor keys (hash collisions ignored)",
-           "`subset` regeneration is checked on the implementation only"]
+           "`subset`: names/positions and per-term columns are proved on the models (SubsetLaws, SubsetReplay); the models are tied to the code by the metadata and subsetreplay streams"]
 ASSUMPTIONS = ["term lists are duplicate-free (a list specification repeating a term is a recorded finding)"]
 
 FORMULAS = ["B:A + a", "a + A:B:a", "b:a + A", "A + B + A:B", "G:B:A", "0 + A + a:A", "a + poly(b, 2) + A", "bs(a, df=4) + B:A", "C(A, contr.sum):b + a",
